@@ -254,6 +254,11 @@ def run(ctx):
                     bad_merge.append((typ, sect, key, f"second construction raises {e.exc_name}"))
     r4.check(not bad_merge and n_merge >= 100, "Question.__init__[every type x default key overridden]", f"{n_merge} merges: the row's value replaces the type default of the same key, other defaults stay",
              qi.loc(), why_fail="; ".join(f"{t}.{s_}.{k}: {w}" for t, s_, k, w in bad_merge[:3]))
+    # the bind attributes a type contributes by itself (metadata preloads) are the documented ones
+    for typ, (btype, preload, pparams) in sorted(spec.PRELOAD_SPEC.items()):
+        b = (snapshot.get(typ) or {}).get("bind") or {}
+        r4.check((b.get("type"), b.get("jr:preload"), b.get("jr:preloadParams")) == (btype, preload, pparams), f"type default bind[{typ!r}]",
+                 f"type={btype} jr:preload={preload} jr:preloadParams={pparams}", "pyxform/question_type_dictionary.py", why_fail=f"table has {b}")
     r4.check(qtd_all == snapshot, "QUESTION_TYPE_DICT unchanged by construction", "building questions writes nothing into the shared type table", qi.loc())
     rules.append(r4)
 
@@ -301,4 +306,54 @@ def run(ctx):
     rules.append(r5)
     from .c13 import COLUMN_SETS, column_order_rule
     rules.append(column_order_rule(ctx, "C05", "C05.R6", {k: v for k, v in COLUMN_SETS.items() if "message" in k or "bind::" in k}))
+    rules.append(no_cell_deleted_rule(ctx, "C05", "C05.R7"))
     return rules
+
+
+# deleting writes on dict-like data between the header grouping and the JSON form; each entry confirmed by reading
+ACCEPTED_DELETIONS = {
+    ("workbook_to_json", "disabled"): "the deprecated disabled column is consumed by the loop (the row is skipped or kept whole)",
+    ("workbook_to_json", "hint"): "table-list: the group's hint moves to the generated note (C04.R1 evaluates the move)",
+    ("workbook_to_json", "label"): "table-list: the group's label moves to the generated note (C04.R1 evaluates the move)",
+    ("workbook_to_json", "id_string"): "settings: duplicate id header (recorded under C14.R7)",
+    ("group_dictionaries_by_key", "<key>"): "choices / osm rows: the list_name cell becomes the grouping key",
+    ("validate_and_clean_choices", "__row"): "choices: internal row-number bookkeeping key",
+    ("validate_and_clean_choices", "<invalid_header>"): "choices: extra column with an invalid header is dropped with a warning (C01.R2 evaluates it)",
+}
+
+
+def no_cell_deleted_rule(ctx, prop, rid):
+    """Between the header grouping and the JSON form, a cell the author wrote is never removed from its row: every
+    deleting write (`d.pop(k)`, `del d[k]`, `d.clear()`, `d.popitem()`) in workbook_to_json and the functions it calls
+    is either in the accepted table or a violation.  (A validator that *reads* a cell with pop() silently drops it:
+    the logic never reaches the bind.)"""
+    from ..callgraph import CallGraph
+    from ..effects import writes_in
+    r = Rule(prop, rid, "no cell is deleted from a row on its way to the JSON form", floor=5,
+             necessary="a logic cell removed from the row dict never becomes a bind attribute")
+    repo = ctx.repo
+    cg = CallGraph(repo, ctx.consts.interp)
+    reach = cg.reachable(["pyxform.xls2json:workbook_to_json"])
+    elem_init = {f.fq for f in repo.all_functions() if f.name == "__init__"}
+    n = 0
+    for fi in repo.all_functions():
+        if fi.fq not in reach or fi.fq in elem_init:
+            continue
+        for kind, tgt, node in writes_in(fi.node):
+            if kind == "del":
+                meth, key = "del", norm(tgt.slice) if isinstance(tgt, ast.Subscript) else norm(tgt)
+            elif kind == "mutator" and node.func.attr in ("pop", "popitem", "clear"):
+                if node.func.attr == "pop" and not node.args:
+                    continue  # list.pop(): stack discipline, not a cell
+                meth, key = node.func.attr, (norm(node.args[0]) if node.args else "")
+            else:
+                continue
+            n += 1
+            kn = node.args[0] if kind == "mutator" and node.args else (tgt.slice if isinstance(tgt, ast.Subscript) else None)
+            okc, kv = const_str(ctx, fi.module, kn) if kn is not None else (False, None)
+            key = kv if okc and isinstance(kv, str) else f"<{key}>"
+            acc = ACCEPTED_DELETIONS.get((fi.name, key))
+            r.check(acc is not None, f"{fi.qualname}:{meth} {key} on {norm(tgt)[:40]}", f"accepted: {acc}" if acc else "deleting write is in the accepted table", fi.loc(node),
+                    why_fail=f"`{norm(node)[:70]}` removes an entry from row / sheet data on the conversion path; nothing downstream sees that cell")
+    r.check(n >= 5, "deleting writes census", f"{n} deleting writes examined in functions reachable from workbook_to_json", "pyxform/xls2json.py")
+    return r
